@@ -26,3 +26,17 @@ Proof.
   - intros c e Hc He. vm_compute in Hc. destruct Hc as [<-|[]]. destruct He as [<-|[]]. vm_compute. tauto.
   - intros w e Hw. destruct Hw.
 Qed.
+
+(* the cover model kPathCoverCycles on the same graph with the same subset constraint *)
+From FP Require Import WalkCoverIff.
+Definition loop_cons_kpcc : kpcc_inst :=
+  {| pc_graph := loopG; pc_k := 1; pc_ignore := []; pc_cons := [[(0, 0)%N]]; pc_cov := 1%Q; pc_opts := no_opts;
+     pc_safe_lists := []; pc_fix := [] |}.
+Lemma loop_cons_kpcc_feasible : sat loop_cons_sol (encode_kpcc loop_cons_kpcc).
+Proof. apply sat_b_sound. vm_compute. reflexivity. Qed.
+Lemma loop_cons_kpcc_inputs_ok : winputs_ok (kpcc_walk loop_cons_kpcc).
+Proof.
+  split.
+  - intros c e Hc He. vm_compute in Hc. destruct Hc as [<-|[]]. destruct He as [<-|[]]. vm_compute. tauto.
+  - intros w e Hw. destruct Hw.
+Qed.
